@@ -171,12 +171,13 @@ PROPS = {
             'typed integer entry points and deserialize_bytes consume exactly the events of their own node (one scalar; or SeqStart..SeqEnd) before the visitor runs',
             'deserialize_option: None exactly for nothing left / a container end / a !!null scalar / a null-like scalar (consumed: exactly that scalar) / an empty-mapping key (consumed whole); otherwise the visitor gets the deserializer with the cursor untouched. deserialize_unit: accepts only absence or a PLAIN null-like scalar',
             'deserialize_seq (also tuples / tuple structs): a null-like scalar is an empty sequence, a !!binary scalar is its strict base64 bytes, anything else must be a SeqStart, which is consumed before the visitor sees the elements; afterwards exactly a pending SeqEnd is consumed. deserialize_unit_struct: an empty mapping (consumed whole) or a unit',
+            'deserialize_enum notation dispatch (real body, nested access types lifted out): a plain scalar names a variant and only that scalar is consumed (a tag that is not a variant name must equal the enum name); a tag that names a variant selects it and the same scalar, re-tagged as a string, is its payload; a mapping selects the variant by its scalar key and the payload follows in map mode; a tagged sequence is collected as exactly that node; every other node kind is an error; no_schema refuses number-like plain names',
             'VA::newtype_variant_seed / tuple_variant / struct_variant: in the `{Variant: payload}` notation the payload is followed by exactly the mapping end, which is consumed (anything else is an error); in the other notations nothing is consumed after the payload',
             'deserialize_map prologue: a null-like scalar is an empty mapping, anything else must be a MapStart (consumed), and the map access handed to the visitor starts empty with the map-access invariant established',
             'MA::next_value_seed (map access): a value is handed out only after its key (else ValueRequestedBeforeKey with nothing consumed); each key is paired with exactly one value; a buffered value (merge / reordered entry) is read from exactly its recorded events while the live cursor stays put; a live value is read at the untouched cursor with the next node as definition site',
             'SA::next_element_seed (sequence access): None exactly at the SeqEnd, which is left for the caller; otherwise the element seed runs at the untouched cursor with the element\'s own location; end of input inside a sequence is an error',
         ],
-        not_covered=['arity / field-name checks of serde-generated visitors; the notation dispatch of deserialize_enum (Mode, tagged replays) and the TaggedEA / TaggedVA accesses, newtype / anchor wrappers (generic over Visitor, thread-local anchor context); the leftover checks of the feature-gated *_valid / *_validate entry points; the reference interpreter comparison'],
+        not_covered=['arity / field-name checks of serde-generated visitors; EA::variant_seed and the TaggedEA / TaggedVA accesses (one-line delegations to serde), simple_tagged_enum_name (string surgery, uninterpreted), newtype / anchor wrappers (generic over Visitor, thread-local anchor context); the leftover checks of the feature-gated *_valid / *_validate entry points; the reference interpreter comparison'],
         assumptions=['scalar_is_nullish is used as an uninterpreted function of text and style'],
     ),
     'C12': dict(
